@@ -37,6 +37,7 @@ type Check struct {
 	Assume     []string
 	funcsSeen  map[*ssa.Function]bool
 	Extra      map[string]interface{}
+	AltCG      bool // thorough tier: use the other call-graph construction (CHA <-> VTA)
 	start      time.Time
 	fixtureRun bool
 }
